@@ -842,7 +842,12 @@ class SymInt:
         return bool(SymBool(self.nonzero()))
 
     def __hash__(self):
-        raise Unsupported("hash of SymInt (symbolic dict/set key)")
+        # a symbolic integer used as a dictionary / set / memo key: every symbolic key hashes alike, so container
+        # operations fall back on == (symbolic, forks); loads, .get and membership tests on containers go through
+        # symx_getitem / symx_get / symx_in, which compare against every key (concrete keys included)
+        if self.isconst():
+            return builtins.hash(self.constval())
+        return 0x5EED
 
     def __index__(self):
         return concretize(self)
@@ -1886,11 +1891,11 @@ def symx_getitem(obj, key):
                 if bool(SymBool(present)):
                     return OpaqueStr("label")
                 raise KeyError(key)
-            for k in obj:
-                if isinstance(k, int):
+            for k in list(obj):
+                if isinstance(k, (int, SymInt)):
                     r = key == k
                     if r is True or (not isinstance(r, bool) and bool(r)):
-                        return obj[k]
+                        return _dict_value_by_identity(obj, k)
             raise KeyError(key)
         if isinstance(obj, (list, tuple)):
             n = len(obj)
@@ -1910,6 +1915,13 @@ def symx_getitem(obj, key):
                 if r is True or (not isinstance(r, bool) and bool(r)):
                     return dict.__getitem__(obj, k) if isinstance(k, str) else _dict_value_by_identity(obj, k)
         raise KeyError(key)
+    if isinstance(obj, dict) and isinstance(key, int) and not isinstance(key, bool) and any(isinstance(k, SymInt) for k in obj):
+        for k in list(obj):
+            if isinstance(k, (int, SymInt)):
+                r = k == key
+                if r is True or (not isinstance(r, bool) and bool(r)):
+                    return _dict_value_by_identity(obj, k)
+        raise KeyError(key)
     if isinstance(key, list) and any(isinstance(k, SymBool) for k in key):
         key = [bool(k) if isinstance(k, SymBool) else k for k in key]
     if isinstance(key, slice) and any(isinstance(v, SymInt) for v in (key.start, key.stop, key.step)):
@@ -1926,7 +1938,7 @@ def _dict_value_by_identity(d, key_obj):
 
 def symx_get(obj, *args):
     """obj.get(key[, default])"""
-    if isinstance(obj, dict) and args and is_sym(args[0]):
+    if isinstance(obj, dict) and args and (is_sym(args[0]) or any(isinstance(k, SymInt) for k in obj)):
         try:
             return symx_getitem(obj, args[0])
         except KeyError:
@@ -1939,6 +1951,12 @@ def symx_in(x, container):
     if isinstance(x, str) and isinstance(container, dict) and any(isinstance(k, SymStr) for k in container):
         for k in list(container):
             r = x == k if not isinstance(k, SymStr) else k == x
+            if r is True or (not isinstance(r, bool) and bool(r)):
+                return True
+        return False
+    if isinstance(container, (set, frozenset, dict)) and isinstance(x, int) and any(isinstance(k, SymInt) for k in container):
+        for k in list(container):
+            r = k == x
             if r is True or (not isinstance(r, bool) and bool(r)):
                 return True
         return False
